@@ -3,7 +3,8 @@
 (* lists, and the hostile families of the property's quantifier: truncation  *)
 (* at every offset, inflated record counts, compression pointers forming     *)
 (* loops (pure pointer cycles AND cycles through 1-3 ordinary labels) /      *)
-(* pointing forward / outside the packet, wrong rdlength, reserved           *)
+(* pointing forward / outside the packet, wrong rdlength, reserved label     *)
+(* types with and without that many bytes behind them,                       *)
 (* label types, other rcodes / flags.  Bytes 0-1 (the id) are a placeholder: *)
 (* the driver writes the id of the real query there.                         *)
 EXTENDS DnsReply
@@ -121,9 +122,30 @@ LargeReply(H) ==
 LargeHs == {1024, 1027, 1300, 2053, 3075, 4057}                            \* 4057: the datagram is exactly 4096 bytes
 Larges == {T("large", LargeReply(H)) : H \in LargeHs}
 
+\* ---- LONG labels: length octets 63 (the longest regular label) and 64..191 (reserved label types 01/10, which the
+\* code reads as plain lengths) with that many host-name bytes behind them, at every name position, also behind a pointer
+LongLens == {63, 64, 65, 100, 127, 128, 191}
+LongLabel(L) == <<L>> \o [i \in 1..L |-> 97 + (i % 26)]
+LongName(L) == LongLabel(L) \o <<2, 98, 99, 0>>                                       \* "<L bytes>.bc"
+LongLabels ==
+  UNION {
+    {T("long-question", Hdr(33152, 1, 1, 0, 0) \o LongName(L) \o <<0, 1, 0, 1>> \o ARec(PtrQ)),
+     T("long-owner", Hdr(33152, 1, 1, 0, 0) \o Question \o ARec(LongName(L))),
+     T("long-cname", Hdr(33152, 1, 2, 0, 0) \o Question \o RecHdr(PtrQ, 5, <<0, 0, 0, 9>>, Len(LongName(L))) \o LongName(L) \o ARec(PtrQ)),
+     \* CNAME = "e" + pointer to the long name of the previous CNAME (rdata at 34)
+     T("long-via-ptr", Hdr(33152, 1, 2, 0, 0) \o Question \o RecHdr(PtrQ, 5, <<0, 0, 0, 9>>, Len(LongName(L))) \o LongName(L)
+                       \o RecHdr(PtrQ, 5, <<0, 0, 2, 88>>, 4) \o <<1, 101, 192, 34>>),
+     \* the long label only in skipped TXT rdata, entered through the owner pointer of an A record
+     T("long-txt-ptr", Hdr(33152, 1, 2, 0, 0) \o Question \o RecHdr(PtrQ, 16, <<0, 0, 0, 9>>, Len(LongName(L))) \o LongName(L)
+                       \o ARec(<<192, 34>>)),
+     \* a name of several long labels (more than 255 bytes in all)
+     T("long-many", Hdr(33152, 1, 1, 0, 0) \o Question \o RecHdr(PtrQ, 5, <<0, 0, 0, 9>>, 3 * (L + 1) + 4)
+                    \o LongLabel(L) \o LongLabel(L) \o LongLabel(L) \o <<2, 98, 99, 0>>)}
+    : L \in LongLens}
+
 \* everything derived from one record list
 Family(ks) ==
   LET g == Good(ks) IN
   {T("good", g)} \cup Truncs(g) \cup Counts(g) \cup PtrMuts(g) \cup PtrLabelLoops(g) \cup LabelMuts(g) \cup RdMuts(g) \cup FlagMuts(ks) \cup Extras(ks)
-All(n) == LabelCycles \cup Larges \cup UNION {Family(ks) : ks \in Lists(n)}
+All(n) == LabelCycles \cup Larges \cup LongLabels \cup UNION {Family(ks) : ks \in Lists(n)}
 =============================================================================
